@@ -35,6 +35,17 @@ open Lean Glom Glom.C18
 
 /-! ### JSON codec -/
 
+/-- a decoded object has exactly the expected fields: an unknown or missing field is an error,
+    never ignored -/
+def expectKeys (what : String) (j : Json) (allowed : List String) : Except String Unit :=
+  match j with
+  | .obj m =>
+    let ks := m.foldl (fun acc k _ => k :: acc) []
+    match ks.filter (fun k => !allowed.contains k) with
+    | [] => pure ()
+    | bad => throw s!"{what}: unexpected field(s) {bad} in {j.compress}"
+  | _ => throw s!"{what}: expected an object, got {j.compress}"
+
 def nameOfJson (j : Json) : Except String Name := do
   match j with
   | .str s => return s.toList
@@ -90,22 +101,37 @@ def kindToJson : Kind → Json
 
 mutual
   partial def argOfJson (j : Json) : Except String (Arg Scalar) := do
-    if let .ok s := j.getObjVal? "lit" then return .lit (← scalarOfJson s)
+    if let .ok s := j.getObjVal? "lit" then
+      expectKeys "argument" j ["lit"]
+      return .lit (← scalarOfJson s)
     else if let .ok t := j.getObjVal? "t" then
+      expectKeys "argument" j ["t"]
+      expectKeys "nested T" t ["root", "steps"]
       let r ← t.getObjValAs? String "root"
       let st ← stepsOfJson (← t.getObjVal? "steps")
       return .t r st
     else if let .ok t := j.getObjVal? "path" then
+      expectKeys "argument" j ["path"]
+      expectKeys "nested Path" t ["root", "steps"]
       let r ← t.getObjValAs? String "root"
       let st ← stepsOfJson (← t.getObjVal? "steps")
       return .path r st
     else if let .ok (.arr #[k, .arr xs]) := j.getObjVal? "seq" then
+      expectKeys "argument" j ["seq"]
       return .seq (← kindOfJson k) (← xs.toList.mapM argOfJson)
     else if let .ok (.arr kvs) := j.getObjVal? "dict" then
+      -- "order": the insertion order the harness builds the dict with (a permutation of the indexes;
+      -- as a dict the argument is the same — the model prints entries in key order like reprlib)
+      expectKeys "argument" j ["dict", "order"]
+      if let .ok o := j.getObjVal? "order" then
+        let idx ← natsOfJson o
+        if !(idx.length == kvs.size && (List.range kvs.size).all (fun i => idx.contains i)) then
+          throw s!"dict argument: \"order\" is not a permutation of the entries: {o.compress}"
       return .dict (← kvs.toList.mapM (fun e => match e with
         | .arr #[k, v] => do return (← argOfJson k, ← argOfJson v)
         | _ => throw s!"bad dict entry {e.compress}"))
     else if let .ok (.arr #[a, b, c]) := j.getObjVal? "sliceobj" then
+      expectKeys "argument" j ["sliceobj"]
       return .sliceObj (← argOfJson a) (← argOfJson b) (← argOfJson c)
     else throw s!"bad arg {j.compress}"
   partial def optArgOfJson (j : Json) : Except String (Option (Arg Scalar)) :=
@@ -113,8 +139,11 @@ mutual
     | .null => pure none
     | _ => do return some (← argOfJson j)
   partial def itemOfJson (j : Json) : Except String (Item Scalar) := do
-    if let .ok a := j.getObjVal? "one" then return .one (← argOfJson a)
+    if let .ok a := j.getObjVal? "one" then
+      expectKeys "item" j ["one"]
+      return .one (← argOfJson a)
     else if let .ok (.arr #[a, b, c]) := j.getObjVal? "slice" then
+      expectKeys "item" j ["slice"]
       return .slice (← optArgOfJson a) (← optArgOfJson b) (← optArgOfJson c)
     else throw s!"bad item {j.compress}"
   partial def stepOfJson (j : Json) : Except String (Step Scalar) := do
@@ -122,11 +151,13 @@ mutual
     | .str "star" => return .star
     | .str "starstar" => return .starstar
     | _ =>
+      expectKeys "step" j ["attr", "item", "items", "seg", "call"]
       if let .ok n := j.getObjVal? "attr" then return .attr (← nameOfJson n)
       else if let .ok i := j.getObjVal? "item" then return .item (← itemOfJson i)
       else if let .ok (.arr is) := j.getObjVal? "items" then return .items (← is.toList.mapM itemOfJson)
       else if let .ok s := j.getObjVal? "seg" then return .seg (← argOfJson s)
       else if let .ok c := j.getObjVal? "call" then
+        expectKeys "call" c ["args", "kwargs"]
         let args ← match c.getObjVal? "args" with
           | .ok (.arr a) => a.toList.mapM argOfJson
           | _ => throw "bad call args"
@@ -144,6 +175,7 @@ mutual
 end
 
 def objOfJson (j : Json) : Except String (Obj Scalar) := do
+  expectKeys "object" j ["t", "path"]
   if let .ok t := j.getObjVal? "t" then
     return .tobj (← t.getObjValAs? String "root") (← stepsOfJson (← t.getObjVal? "steps"))
   else if let .ok t := j.getObjVal? "path" then
@@ -198,11 +230,14 @@ def optObjToJson : Option (Obj Scalar) → Json
 instance : BEq (Step Scalar) := ⟨fun a b => (stepToJson a).compress == (stepToJson b).compress⟩
 
 def obsOfJson (j : Json) : Except String (ReprObs Scalar) := do
+  expectKeys "observation" j ["text", "eval", "text2", "pickled", "same_eval"]
   return { text := ← j.getObjValAs? String "text"
            evalOk := ← optObjOfJson (← j.getObjVal? "eval")
-           text2 := match j.getObjVal? "text2" with
-             | .ok (.str s) => some s
-             | _ => none
+           text2 := ← (match j.getObjVal? "text2" with
+             | .ok (.str s) => pure (some s)
+             | .ok .null => pure none
+             | .ok v => throw s!"text2: expected a string or null, got {v.compress}"
+             | .error e => throw e)
            pickled := ← optObjOfJson (← j.getObjVal? "pickled")
            sameEval := ← j.getObjValAs? Bool "same_eval" }
 
@@ -229,7 +264,7 @@ def runRepr (j : Json) : Except String Json := do
   let agree := m.text == impl.text && optObjEq m.evalOk impl.evalOk && m.text2 == impl.text2 &&
     optObjEq m.pickled impl.pickled && m.sameEval == impl.sameEval
   -- the domain of the property: objects that can be built, whose scalars are Python expressions
-  let valid := validObj x && fitsObj pyScalar F.fmt (unbounded F.lim.plainSeg) x
+  let valid := validObj x && fitsObj pyScalar F.fmt (unbounded false) x
   -- the hypothesis of the round-trip theorems: nothing exceeds a limit of the `_BBRepr` instance
   let fits := fitsObj pyScalar F.fmt F.lim x
   let holds := !valid || checkRepr x impl
@@ -239,7 +274,7 @@ def runRepr (j : Json) : Except String Json := do
     (if agree then "" else "model differs from implementation; ") ++
     (if modelHolds || !(valid && fits) then "" else "model fails its own checker on a valid object; ") ++
     (if valid then "" else "outside the domain (not buildable / a scalar that is not an expression); ") ++
-    (if fits then "" else "a limit of the _BBRepr instance is exceeded; ")
+    (if fits then "" else "a limit of the _BBRepr instance is exceeded, or a part is printed by the builtin repr; ")
   let kind := match x with | .tobj r _ => s!"T-expr:{r}" | .pobj r _ => s!"Path:{r}"
   let last := match x.steps.getLast? with | some s => stepKind s | none => "empty"
   let dom := if !valid then "/out-of-domain" else if !fits then "/over-limit" else ""
@@ -259,7 +294,13 @@ def optIntOfJson (j : Json) : Except String (Option Int) :=
     | .ok i => pure (some i)
     | .error e => throw e
 
+/-- the other operand: root and steps, and how it is handed over (`"as"`: a Path, or its `path_t` —
+    a T expression; `Path.__eq__` / `startswith` read both the same way) -/
 def rootedOfJson (j : Json) : Except String (String × List (String × String)) := do
+  match j.getObjVal? "as" with
+  | .ok (.str "path") | .ok (.str "t") => pure ()
+  | .ok v => throw s!"other operand: \"as\" must be \"path\" or \"t\", got {v.compress}"
+  | .error _ => pure ()        -- the path itself (root + steps of the case) has no such field
   return (← j.getObjValAs? String "root", ← stepsPairsOfJson (← j.getObjVal? "steps"))
 
 def seqOpOfJson (j : Json) : Except String (SeqOp String) := do
@@ -268,6 +309,8 @@ def seqOpOfJson (j : Json) : Except String (SeqOp String) := do
   | .str "values" => return .values
   | .str "items" => return .items
   | .str "from_t" => return .fromT
+  | .str "eq_other" => return .eqOther
+  | .str "startswith_bad" => return .startswithBad
   | _ =>
     if let .ok i := j.getObjVal? "idx" then
       match i.getInt? with
@@ -277,8 +320,11 @@ def seqOpOfJson (j : Json) : Except String (SeqOp String) := do
       return .slice (← optIntOfJson a) (← optIntOfJson b) (← optIntOfJson c)
     else if let .ok o := j.getObjVal? "eq" then
       let (r, s) ← rootedOfJson o; return .eq r s
+    else if let .ok o := j.getObjVal? "ne" then
+      let (r, s) ← rootedOfJson o; return .ne r s
     else if let .ok o := j.getObjVal? "startswith" then
       let (r, s) ← rootedOfJson o; return .startswith r s
+    else if let .ok (.str s) := j.getObjVal? "startswith_str" then return .startswithStr s
     else if let .ok o := j.getObjVal? "concat" then return .concat (← stepsPairsOfJson o)
     else throw s!"bad seq op {j.compress}"
 
@@ -289,6 +335,7 @@ def seqResOfJson (j : Json) : Except String (SeqRes String) := do
   match j with
   | .str "IndexError" => return .indexError
   | .str "ValueError" => return .valueError
+  | .str "TypeError" => return .typeError
   | _ =>
     if let .ok n := j.getObjValAs? Nat "nat" then return .nat n
     else if let .ok p := j.getObjVal? "path" then
@@ -307,11 +354,14 @@ def seqResToJson : SeqRes String → Json
   | .bool b => Json.mkObj [("bool", b)]
   | .indexError => "IndexError"
   | .valueError => "ValueError"
+  | .typeError => "TypeError"
   | .other s => Json.mkObj [("other", s)]
 
 def seqOpName : SeqOp String → String
   | .len => "len" | .idx _ => "idx" | .slice .. => "slice" | .values => "values" | .items => "items"
   | .eq .. => "eq" | .startswith .. => "startswith" | .concat _ => "concat" | .fromT => "from_t"
+  | .ne .. => "ne" | .eqOther => "eq_other" | .startswithStr _ => "startswith_str"
+  | .startswithBad => "startswith_bad"
 
 def runSeq (j : Json) : Except String Json := do
   let root ← j.getObjValAs? String "root"
@@ -373,7 +423,7 @@ def runConcat (j : Json) : Except String Json := do
   let implJoined ← evOfJson (← impl.getObjVal? "joined")
   let implNested ← nestedOfJson (← impl.getObjVal? "nested")
   if !(C01.wfSteps p && C01.wfSteps q) then
-    return Json.mkObj [("skip", true), ("why", "path has non-access steps")]
+    throw "concat case: a path with non-access steps (the generator only writes attribute / item / plain steps)"
   let env := C01.genEnv classes
   let ev (steps : List (String × Val)) (t : Val) : EvalObs Val :=
     evOfRes (C01.tEval env heap (.sent "T" :: C01.flatOfSteps steps) t).res
